@@ -48,6 +48,12 @@ theorem c14_verifier_per_request (now : Int) (a b : String) (o : AsrtProvider) (
 example (now : Int) (st : AsrtStorage) (f : Claims → Go.R Unit) :
     (GenC14.NewJWTProfileVerifier now st "https://a.example" 5 7 [fun v => { v with CheckSubject := f }]).CheckSubject = f := rfl
 
+/-- (deep 3) `op.SubjectCheck(f)` - the one option the library offers - replaces the subject check and nothing else: issuer, window,
+    key storage and the (nil) key set of the verifier are those of the plain constructor -/
+theorem c14_subject_check_option (now : Int) (st : AsrtStorage) (iss : String) (m o : Int) (f : Claims → Go.R Unit) :
+    (GenC14.NewJWTProfileVerifier now st iss m o [GenC14.SubjectCheck now f]).flat =
+      { (GenC14.NewJWTProfileVerifier now st iss m o []).flat with CheckSubject := some f } := rfl
+
 /-! ### composition with `c14_assertion_sound` -/
 
 /-- the explicit default subject check is the constructor default -/
@@ -174,35 +180,83 @@ theorem c14_proper_assertion_accepted {now : Int} {reqIssuer : String} {o : Asrt
     · simp at h
   · simp at h
 
+/-! ### the consumers: one characterisation lemma per regenerated function (shape-independent, `go_leaf`); every theorem below uses
+    only these lemmas and never unfolds a regenerated definition -/
+
+theorem clientJWTAuth_ok {now : Int} {reqIssuer : String} {ca : AsrtAssertionParams} {p : AsrtProvider} {id : String} :
+    GenC14.ClientJWTAuth now reqIssuer ca p = .ok id ↔
+      ca.ClientAssertion ≠ "" ∧ ∃ c, VerifyJWTAssertion now (p.tokenOf ca.ClientAssertion) (GenC14.ProviderJWTProfileVerifier now reqIssuer p).flat = .ok c ∧ c.iss = id := by
+  unfold GenC14.ClientJWTAuth Hand.asrtVerifyJWTAssertion
+  go_leaf
+
+/-- `checkPrivateKeyJWTClient`: the client exists and is registered for private_key_jwt -/
+theorem checkPrivateKeyJWTClient_ok {now : Int} {id : String} {s : AsrtStorage} :
+    GenC14.checkPrivateKeyJWTClient now id s = .ok () ↔ ∃ cl, s.GetClientByClientID id = .ok cl ∧ cl.auth = Const.AuthMethodPrivateKeyJWT := by
+  unfold GenC14.checkPrivateKeyJWTClient OPClient.AuthMethod Go.ok
+  go_leaf
+
+theorem authorizePrivateJWTKey_ok {now : Int} {reqIssuer : String} {t : Token} {p : AsrtProvider} {cl : OPClient} :
+    GenC14.AuthorizePrivateJWTKey now reqIssuer t p = .ok cl ↔
+      ∃ c, VerifyJWTAssertion now t (GenC14.ProviderJWTProfileVerifier now reqIssuer p).flat = .ok c ∧
+        p.storage.GetClientByClientID c.iss = .ok cl ∧ cl.auth = Const.AuthMethodPrivateKeyJWT := by
+  unfold GenC14.AuthorizePrivateJWTKey Hand.asrtVerifyToken AsrtProvider.Storage OPClient.AuthMethod
+  go_leaf
+
+/-- `ClientIDFromRequest` on a request whose decoded form carries an assertion -/
+theorem clientIDFromRequest_assertion {now : Int} {reqIssuer : String} {r : AsrtHttpReq} {p : AsrtProvider} {data : AsrtForm}
+    {id : String} {authd : Bool} (hd : p.decoder.decoded r.Form = .ok data) (ha : data.ClientAssertion ≠ "") :
+    GenC14.ClientIDFromRequest now reqIssuer r p = .ok (id, authd) ↔
+      r.ParseForm = .ok () ∧ authd = true ∧ GenC14.ClientJWTAuth now reqIssuer data.ClientAssertionParams p = .ok id ∧
+      GenC14.checkPrivateKeyJWTClient now id p.storage = .ok () := by
+  unfold GenC14.ClientIDFromRequest AsrtProvider.Decoder AsrtDecoder.Decode AsrtProvider.is_ClientJWTProfile AsrtProvider.Storage
+  simp only [hd]
+  go_leaf
+
+/-- `ParseTokenRevocationRequest` on a request whose decoded form names the jwt-bearer assertion type -/
+theorem parseTokenRevocationRequest_assertion {now : Int} {reqIssuer : String} {r : AsrtHttpReq} {p : AsrtProvider} {data : AsrtForm}
+    {tok hint id : String} (hd : p.decoder.decoded r.Form = .ok data) (ht : data.ClientAssertionType = Const.ClientAssertionTypeJWTAssertion) :
+    GenC14.ParseTokenRevocationRequest now reqIssuer r p = .ok (tok, hint, id) ↔
+      r.ParseForm = .ok () ∧ p.pkjwtSupported = true ∧ tok = data.Token ∧ hint = data.TokenTypeHint ∧
+      ∃ c, VerifyJWTAssertion now (p.tokenOf data.ClientAssertion) (GenC14.ProviderJWTProfileVerifier now reqIssuer p).flat = .ok c ∧ c.iss = id ∧
+        GenC14.checkPrivateKeyJWTClient now id p.storage = .ok () := by
+  unfold GenC14.ParseTokenRevocationRequest AsrtProvider.Decoder AsrtDecoder.Decode AsrtProvider.is_RevokerJWTProfile AsrtProvider.Storage
+    AsrtProvider.AuthMethodPrivateKeyJWTSupported Hand.asrtVerifyJWTAssertion
+  simp only [hd, ht]
+  go_leaf
+
+theorem jwtProfile_json {now : Int} {reqIssuer : String} {rq : Go.R AsrtGrantRequest} {p : AsrtProvider} {resp : AsrtTokenResponse} :
+    GenC14.JWTProfile now reqIssuer rq p = .json resp ↔
+      ∃ g c granted, rq = .ok g ∧
+        VerifyJWTAssertion now (p.tokenOf g.Assertion) (GenC14.ProviderJWTProfileVerifier now reqIssuer p).flat = .ok c ∧
+        p.storage.scopePolicy c.iss g.Scope = .ok granted ∧ resp = { subject := c.sub, audience := c.aud, scopes := granted } := by
+  unfold GenC14.JWTProfile Hand.asrtParseGrantRequest Hand.asrtVerifyJWTAssertion Hand.asrtCreateJWTTokenResponse AsrtProvider.Storage
+    AsrtStorage.ValidateJWTProfileScopes
+  go_leaf
+
+theorem legacyJWTProfile_ok {now : Int} {reqIssuer : String} {s : AsrtLegacyServer} {r : AsrtRequest AsrtGrantRequest} {resp : AsrtTokenResponse} :
+    GenC14.LegacyJWTProfile now reqIssuer s r = .ok resp ↔
+      ∃ c granted,
+        VerifyJWTAssertion now (s.provider.tokenOf r.Data.Assertion) (GenC14.ProviderJWTProfileVerifier now reqIssuer s.provider).flat = .ok c ∧
+        s.provider.storage.scopePolicy c.iss r.Data.Scope = .ok granted ∧ resp = { subject := c.sub, audience := c.aud, scopes := granted } := by
+  unfold GenC14.LegacyJWTProfile Hand.asrtVerifyJWTAssertion Hand.asrtCreateJWTTokenResponse AsrtProvider.Storage
+    AsrtStorage.ValidateJWTProfileScopes AsrtProvider.is_JWTAuthorizationGrantExchanger Hand.NewResponse
+  go_leaf
+
+theorem legacyAuthenticateResourceClient_assertion {now : Int} {reqIssuer : String} {s : AsrtLegacyServer} {cc : AsrtClientCredentials} {id : String}
+    (ha : cc.ClientAssertion ≠ "") :
+    GenC14.LegacyAuthenticateResourceClient now reqIssuer s cc = .ok id ↔
+      GenC14.ClientJWTAuth now reqIssuer { ClientAssertion := cc.ClientAssertion } s.provider = .ok id ∧
+      GenC14.checkPrivateKeyJWTClient now id s.provider.storage = .ok () := by
+  unfold GenC14.LegacyAuthenticateResourceClient AsrtProvider.is_ClientJWTProfile AsrtProvider.Storage
+  simp only [ha, bne_iff_ne, ne_eq, not_false_eq_true, if_true]
+  go_leaf
+
 /-- … so `ClientJWTAuth` authenticates its issuer at that request -/
 theorem c14_proper_assertion_authenticates {now : Int} {reqIssuer : String} {ca : AsrtAssertionParams} {p : AsrtProvider} {c : Claims} {alg : String}
     (ha : ca.ClientAssertion ≠ "")
     (h : properlyMade reqIssuer providerMaxAgeIAT providerOffset p.storage.keyRegistry (p.tokenOf ca.ClientAssertion) now = some (c, alg)) :
-    GenC14.ClientJWTAuth now reqIssuer ca p = .ok c.iss := by
-  unfold GenC14.ClientJWTAuth Hand.asrtVerifyJWTAssertion
-  simp [ha, c14_proper_assertion_accepted h, Claims.SetSignatureAlgorithm]
-
-/-! ### the consumers -/
-
-theorem asrtVerify_ok {tokenOf : String → Token} {now : Int} {s : String} {v : AsrtVerifierGo} {r : AsrtTokenRequest}
-    (h : Hand.asrtVerifyJWTAssertion tokenOf (VerifyJWTAssertion now) s v = .ok r) :
-    ∃ c, VerifyJWTAssertion now (tokenOf s) v.flat = .ok c ∧ r.Issuer = c.iss ∧ r.Subject = c.sub ∧ r.Audience = c.aud ∧ r.Scopes = [] := by
-  unfold Hand.asrtVerifyJWTAssertion at h
-  split at h
-  · simp at h
-  · rename_i c hc
-    simp at h; subst h
-    exact ⟨c, hc, rfl, rfl, rfl, rfl⟩
-
-theorem asrtVerifyToken_ok {now : Int} {t : Token} {v : AsrtVerifierGo} {r : AsrtTokenRequest}
-    (h : Hand.asrtVerifyToken (VerifyJWTAssertion now) t v = .ok r) :
-    ∃ c, VerifyJWTAssertion now t v.flat = .ok c ∧ r.Issuer = c.iss := by
-  unfold Hand.asrtVerifyToken at h
-  split at h
-  · simp at h
-  · rename_i c hc
-    simp at h; subst h
-    exact ⟨c, hc, rfl⟩
+    GenC14.ClientJWTAuth now reqIssuer ca p = .ok c.iss :=
+  clientJWTAuth_ok.2 ⟨ha, _, c14_proper_assertion_accepted h, rfl⟩
 
 /-- client authentication by assertion (introspection, device grant, device authorization; the legacy server's resource
     endpoints): the authenticated identity is the issuer of an assertion that is sound FOR THE ADDRESSED ISSUER -/
@@ -210,13 +264,8 @@ theorem c14_client_jwt_auth_sound {now : Int} {reqIssuer : String} {ca : AsrtAss
     (h : GenC14.ClientJWTAuth now reqIssuer ca p = .ok id) :
     endpointSound p.storage.keyRegistry { reqIssuer := reqIssuer, assertion := p.tokenOf ca.ClientAssertion } now
       { accepted := true, identity := some id } = none := by
-  unfold GenC14.ClientJWTAuth at h
-  split at h; · simp at h
-  split at h; · simp at h
-  rename_i r hr
-  obtain ⟨c, hc, hi, _⟩ := asrtVerify_ok hr
-  simp at h; subst h
-  rw [hi]; exact c14_endpoint_monitor hc
+  obtain ⟨_, c, hc, hi⟩ := clientJWTAuth_ok.1 h
+  rw [← hi]; exact c14_endpoint_monitor hc
 
 theorem getClient_id {s : AsrtStorage} {id : String} {c : OPClient} (h : s.GetClientByClientID id = .ok c) : c.id = id := by
   unfold AsrtStorage.GetClientByClientID Store.GetClientByClientID at h
@@ -234,31 +283,11 @@ theorem c14_private_key_jwt_at_issuer {now : Int} {reqIssuer : String} {t : Toke
     cl.auth = Const.AuthMethodPrivateKeyJWT ∧ p.storage.GetClientByClientID cl.id = .ok cl ∧
     endpointSound p.storage.keyRegistry { reqIssuer := reqIssuer, assertion := t, clientAuth := true, registeredMethod := some cl.auth } now
       { accepted := true, identity := some cl.id } = none := by
-  unfold GenC14.AuthorizePrivateJWTKey at h
-  split at h; · simp at h
-  rename_i r hr
-  obtain ⟨c, hc, hi⟩ := asrtVerifyToken_ok hr
-  split at h; · simp at h
-  rename_i cl' hcl
-  simp only [AsrtProvider.Storage, OPClient.AuthMethod] at hcl h
-  by_cases ha : (cl'.auth != Const.AuthMethodPrivateKeyJWT) = true
-  · simp [ha] at h
-  simp [ha] at h; subst h
+  obtain ⟨c, hc, hcl, hauth⟩ := authorizePrivateJWTKey_ok.1 h
   have hid := getClient_id hcl
-  have hauth : cl'.auth = Const.AuthMethodPrivateKeyJWT := by simpa using ha
   refine ⟨hauth, by rw [hid]; exact hcl, ?_⟩
   obtain ⟨c0, hm, hi0, _, _, hs⟩ := c14_endpoint_token_sound hc
-  simp [endpointSound, hm, hs, hid, hi, hi0, hauth]
-
-/-- `checkPrivateKeyJWTClient`: the client exists and is registered for private_key_jwt -/
-theorem checkPrivateKeyJWTClient_ok {now : Int} {id : String} {s : AsrtStorage} (h : GenC14.checkPrivateKeyJWTClient now id s = .ok ()) :
-    ∃ cl, s.GetClientByClientID id = .ok cl ∧ cl.auth = Const.AuthMethodPrivateKeyJWT := by
-  unfold GenC14.checkPrivateKeyJWTClient at h
-  split at h; · simp at h
-  rename_i cl hcl
-  by_cases ha : (cl.AuthMethod != Const.AuthMethodPrivateKeyJWT) = true
-  · simp [ha] at h
-  · exact ⟨cl, hcl, by simpa [OPClient.AuthMethod] using ha⟩
+  simp [endpointSound, hm, hs, hid, hi0, hauth]
 
 /-- an assertion that is sound for the addressed issuer and whose issuer is registered for private_key_jwt: the monitor in full -/
 theorem clientAuth_monitor {now : Int} {reqIssuer : String} {p : AsrtProvider} {t : Token} {c : Claims} {cl : OPClient}
@@ -279,24 +308,11 @@ theorem c14_client_id_from_request_sound {now : Int} {reqIssuer : String} {r : A
       endpointSound p.storage.keyRegistry
         { reqIssuer := reqIssuer, assertion := p.tokenOf data.ClientAssertion, clientAuth := true, registeredMethod := some cl.auth }
         now { accepted := true, identity := some id } = none := by
-  unfold GenC14.ClientIDFromRequest at h
-  split at h; · simp at h
-  simp only [AsrtProvider.Decoder, AsrtDecoder.Decode, hd, AsrtProvider.is_ClientJWTProfile, Bool.true_and, bne_iff_ne, ne_eq, ha,
-    not_false_eq_true, if_true] at h
-  split at h; · simp at h
-  rename_i id' hj
-  split at h; · simp at h
-  rename_i hck
-  simp at h; obtain ⟨rfl, rfl⟩ := h
-  obtain ⟨cl, hcl, hauth⟩ := checkPrivateKeyJWTClient_ok hck
-  refine ⟨rfl, cl, hcl, hauth, ?_⟩
-  unfold GenC14.ClientJWTAuth at hj
-  split at hj; · simp at hj
-  split at hj; · simp at hj
-  rename_i rr hr
-  obtain ⟨c, hc, hi, _⟩ := asrtVerify_ok hr
-  simp at hj; subst hj
-  rw [hi]; exact clientAuth_monitor hc hauth
+  obtain ⟨_, hau, hj, hck⟩ := (clientIDFromRequest_assertion hd ha).1 h
+  obtain ⟨cl, hcl, hauth⟩ := checkPrivateKeyJWTClient_ok.1 hck
+  obtain ⟨_, c, hc, hi⟩ := clientJWTAuth_ok.1 hj
+  refine ⟨hau, cl, hcl, hauth, ?_⟩
+  rw [← hi]; exact clientAuth_monitor hc hauth
 
 /-- C14 (full strength, Provider router: revocation): the assertion branch of `ParseTokenRevocationRequest` -/
 theorem c14_revocation_request_sound {now : Int} {reqIssuer : String} {r : AsrtHttpReq} {p : AsrtProvider} {data : AsrtForm}
@@ -306,22 +322,10 @@ theorem c14_revocation_request_sound {now : Int} {reqIssuer : String} {r : AsrtH
       endpointSound p.storage.keyRegistry
         { reqIssuer := reqIssuer, assertion := p.tokenOf data.ClientAssertion, clientAuth := true, registeredMethod := some cl.auth }
         now { accepted := true, identity := some id } = none := by
-  unfold GenC14.ParseTokenRevocationRequest at h
-  split at h; · simp at h
-  simp only [AsrtProvider.Decoder, AsrtDecoder.Decode, hd, ht, beq_self_eq_true, if_true, AsrtProvider.is_RevokerJWTProfile,
-    AsrtProvider.AuthMethodPrivateKeyJWTSupported, Bool.not_true, Bool.false_or] at h
-  by_cases hp : p.pkjwtSupported = true
-  · simp only [hp, Bool.not_true, Bool.false_eq_true, if_false] at h
-    split at h; · simp at h
-    rename_i rr hr
-    split at h; · simp at h
-    rename_i hck
-    simp at h; obtain ⟨_, _, rfl⟩ := h
-    obtain ⟨c, hc, hi, _⟩ := asrtVerify_ok hr
-    obtain ⟨cl, hcl, hauth⟩ := checkPrivateKeyJWTClient_ok hck
-    refine ⟨hp, cl, hcl, hauth, ?_⟩
-    rw [hi]; exact clientAuth_monitor hc hauth
-  · simp [hp] at h
+  obtain ⟨_, hp, _, _, c, hc, hi, hck⟩ := (parseTokenRevocationRequest_assertion hd ht).1 h
+  obtain ⟨cl, hcl, hauth⟩ := checkPrivateKeyJWTClient_ok.1 hck
+  refine ⟨hp, cl, hcl, hauth, ?_⟩
+  rw [← hi]; exact clientAuth_monitor hc hauth
 
 /-- the storage's scope policy refuses `refused` and invents nothing -/
 def PolicyRefuses (s : AsrtStorage) (refused : List String) : Prop :=
@@ -359,22 +363,9 @@ theorem c14_bearer_grant_sound {now : Int} {reqIssuer : String} {rq : Go.R AsrtG
       endpointSound p.storage.keyRegistry
         { reqIssuer := reqIssuer, assertion := p.tokenOf g.Assertion, bearerGrant := true, requestedScopes := g.Scope, refusedScopes := refused }
         now { accepted := true, identity := some resp.subject, scopes := some resp.scopes } = none := by
-  unfold GenC14.JWTProfile Hand.asrtParseGrantRequest at h
-  cases rq with
-  | error e => simp at h
-  | ok g =>
-  simp only [] at h
-  split at h; · simp at h
-  rename_i r hr
-  obtain ⟨c, hc, hi, hsub, _, _⟩ := asrtVerify_ok hr
-  split at h; · simp at h
-  rename_i granted hgr
-  simp only [Hand.asrtCreateJWTTokenResponse] at h
-  simp at h; subst h
-  simp only [AsrtProvider.Storage, AsrtStorage.ValidateJWTProfileScopes] at hgr
-  refine ⟨g, rfl, ?_⟩
-  rw [hi] at hgr
-  simpa [hsub] using bearer_monitor hc hpol hgr
+  obtain ⟨g, c, granted, hrq, hc, hgr, hresp⟩ := jwtProfile_json.1 h
+  subst hresp
+  exact ⟨g, hrq, bearer_monitor hc hpol hgr⟩
 
 /-- the same for the legacy server -/
 theorem c14_legacy_bearer_grant_sound {now : Int} {reqIssuer : String} {s : AsrtLegacyServer} {r : AsrtRequest AsrtGrantRequest}
@@ -383,18 +374,9 @@ theorem c14_legacy_bearer_grant_sound {now : Int} {reqIssuer : String} {s : Asrt
     endpointSound s.provider.storage.keyRegistry
       { reqIssuer := reqIssuer, assertion := s.provider.tokenOf r.Data.Assertion, bearerGrant := true, requestedScopes := r.Data.Scope, refusedScopes := refused }
       now { accepted := true, identity := some resp.subject, scopes := some resp.scopes } = none := by
-  unfold GenC14.LegacyJWTProfile at h
-  simp only [AsrtProvider.is_JWTAuthorizationGrantExchanger, Bool.not_true, Bool.false_eq_true, if_false] at h
-  split at h; · simp at h
-  rename_i tr hr
-  obtain ⟨c, hc, hi, hsub, _, _⟩ := asrtVerify_ok hr
-  split at h; · simp at h
-  rename_i granted hgr
-  simp only [Hand.asrtCreateJWTTokenResponse, Hand.NewResponse] at h
-  simp at h; subst h
-  simp only [AsrtProvider.Storage, AsrtStorage.ValidateJWTProfileScopes] at hgr
-  rw [hi] at hgr
-  simpa [hsub] using bearer_monitor hc hpol hgr
+  obtain ⟨c, granted, hc, hgr, hresp⟩ := legacyJWTProfile_ok.1 h
+  subst hresp
+  exact bearer_monitor hc hpol hgr
 
 /-- C14 (full strength, legacy server: introspection): with an assertion, the caller is authenticated through `ClientJWTAuth`
     and must be registered for private_key_jwt -/
@@ -404,22 +386,11 @@ theorem c14_legacy_resource_client_sound {now : Int} {reqIssuer : String} {s : A
       endpointSound s.provider.storage.keyRegistry
         { reqIssuer := reqIssuer, assertion := s.provider.tokenOf cc.ClientAssertion, clientAuth := true, registeredMethod := some cl.auth }
         now { accepted := true, identity := some id } = none := by
-  unfold GenC14.LegacyAuthenticateResourceClient at h
-  simp only [ha, bne_iff_ne, ne_eq, not_false_eq_true, if_true, AsrtProvider.is_ClientJWTProfile] at h
-  split at h; · simp at h
-  rename_i id' hj
-  split at h; · simp at h
-  rename_i hck
-  simp at h; subst h
-  obtain ⟨cl, hcl, hauth⟩ := checkPrivateKeyJWTClient_ok hck
+  obtain ⟨hj, hck⟩ := (legacyAuthenticateResourceClient_assertion ha).1 h
+  obtain ⟨cl, hcl, hauth⟩ := checkPrivateKeyJWTClient_ok.1 hck
+  obtain ⟨_, c, hc, hi⟩ := clientJWTAuth_ok.1 hj
   refine ⟨cl, hcl, hauth, ?_⟩
-  unfold GenC14.ClientJWTAuth at hj
-  split at hj; · simp at hj
-  split at hj; · simp at hj
-  rename_i rr hr
-  obtain ⟨c, hc, hi, _⟩ := asrtVerify_ok hr
-  simp at hj; subst hj
-  rw [hi]; exact clientAuth_monitor hc hauth
+  rw [← hi]; exact clientAuth_monitor hc hauth
 
 /-! ### the hand-written getter of Model/OP.lean -/
 
@@ -438,15 +409,13 @@ theorem c14_hand_model_bridge (now : Int) (t : Token) (p : Provider)
     Hand.asrtNoOpts, GoX.foldList, AsrtVerifierGo.flat, h1, h2, providerMaxAgeIAT, providerOffset, asrtOf, AsrtStorage.keyRegistry,
     AsrtProvider.Storage, Go.nil, Go.HasNil.nilv]
 
-/-- … hence `AuthorizePrivateJWTKey` of the token-endpoint model is the regenerated one at that issuer -/
-theorem c14_hand_private_key_bridge (now : Int) (t : Token) (p : Provider)
+/-- … hence `AuthorizePrivateJWTKey` of the token-endpoint model accepts exactly what the regenerated one accepts at that issuer,
+    with the same client (from the two characterisation lemmas) -/
+theorem c14_hand_private_key_bridge (now : Int) (t : Token) (p : Provider) (cl : OPClient)
     (h1 : p.jwtMaxAgeIAT = providerMaxAgeIAT) (h2 : p.jwtOffset = providerOffset) :
-    AuthorizePrivateJWTKey now t p = GenC14.AuthorizePrivateJWTKey now p.issuer t (asrtOf p) := by
-  unfold AuthorizePrivateJWTKey GenC14.AuthorizePrivateJWTKey Hand.asrtVerifyToken
-  rw [c14_hand_model_bridge now t p h1 h2]
-  cases VerifyJWTAssertion now t (GenC14.ProviderJWTProfileVerifier now p.issuer (asrtOf p)).flat with
-  | error e => rfl
-  | ok c => rfl
+    AuthorizePrivateJWTKey now t p = .ok cl ↔ GenC14.AuthorizePrivateJWTKey now p.issuer t (asrtOf p) = .ok cl := by
+  rw [genAuthorizePrivateJWTKey_ok, authorizePrivateJWTKey_ok, c14_hand_model_bridge now t p h1 h2]
+  rfl
 
 /-! ### non-vacuity: a provider serving two issuers, one assertion addressed to `a.example` -/
 
